@@ -91,4 +91,29 @@ O(id='OID_arcs_roundtrip.a4', props=['C17', 'C14'], kind='bounded', entry='h_arc
   cbmc=['--unwindset', 'OBJECT_IDENTIFIER_get_arcs.0:6', '--malloc-may-fail', '--malloc-fail-null', '--memory-leak-check'], min_props=60,
   **dict(OID, backends=['sat']))
 
+# ---------------------------------------------------------------- L0: BER tag / length
+O(id='ber_tlv_tag_serialize', props=['C01', 'C02', 'C07'], kind='width', harness='harness/ber_tag.c', entry='h_ber_tlv_tag_serialize',
+  units=[SK + 'ber_tlv_tag.c'], include=['contracts/ber_tlv_tag.h'], enforce=['ber_tlv_tag_serialize'],
+  functions=['ber_tlv_tag_serialize', 'ber_fetch_tag'], unwind=8, bound='all 2^32 tags; loops bounded by ceil(30/7)+1 octets',
+  min_props=40, backends=['cvc5', 'sat'])
+BL = dict(harness='harness/ber_len.c', units=[SK + 'ber_tlv_length.c'], include=[], backends=['sat'])
+O(id='ber_fetch_length', props=['C03', 'C04', 'C05'], kind='width', entry='h_ber_fetch_length', functions=['ber_fetch_length'],
+  proves=['ber_fetch_length'], unwind=129, bound='length-of-length field is 7 bits: at most 1+126 octets are read (buffer of 132 octets, unwind 129, unwinding assertions)',
+  min_props=20, timeout=600, **BL)
+O(id='ber_fetch_length.prefix', props=['C05'], kind='width', entry='h_ber_fetch_length_prefix', functions=['ber_fetch_length'],
+  unwind=129, bound='as ber_fetch_length', min_props=20, timeout=600, **BL)
+O(id='der_tlv_length_serialize', props=['C01', 'C02', 'C07'], kind='width', entry='h_der_tlv_length_serialize',
+  functions=['der_tlv_length_serialize', 'ber_fetch_length'], proves=['der_tlv_length_serialize'], unwind=10,
+  bound='all lengths 0..SSIZE_MAX; loops bounded by sizeof(ssize_t)=8', min_props=30, **BL)
+
+# ---------------------------------------------------------------- L0: OER length
+OS = dict(harness='harness/h_oer_support.c', units=[SK + 'oer_support.c'], include=[], backends=['sat'])
+O(id='oer_serialize_length', props=['C01', 'C02', 'C07'], kind='width', entry='h_oer_serialize_length',
+  functions=['oer_serialize_length', 'oer_fetch_length'], proves=['oer_serialize_length'], unwind=18,
+  bound='all 2^64 lengths; loops bounded by sizeof(size_t)=8; callback = recording harness callback that may fail', min_props=30, **OS)
+O(id='oer_fetch_length', props=['C03', 'C04', 'C05'], kind='width', entry='h_oer_fetch_length', functions=['oer_fetch_length'],
+  proves=['oer_fetch_length'], unwind=129, bound='length-of-length field is 7 bits: at most 1+127 octets are read (buffer of 132 octets)', min_props=20, timeout=600, **OS)
+O(id='oer_fetch_length.prefix', props=['C05'], kind='width', entry='h_oer_fetch_length_prefix', functions=['oer_fetch_length'],
+  unwind=129, bound='as oer_fetch_length', min_props=20, timeout=600, **OS)
+
 UNVERIFIED = {}
